@@ -38,7 +38,7 @@ InfoOf(t) ==
         occs  |-> [i \in 1..Len(doc.occs) |->
                      LET x == doc.occs[i] IN
                      [n |-> x.o.name, bind |-> x.o.bind, role |-> x.o.role,
-                      r |-> R4(ToLspRange(tab, x.a, x.e)),
+                      r |-> R4(ToLspRange(tab, x.a, x.e)), nb |-> NonAsciiBefore(tab, x.a),
                       targets |-> IF x.o.bind THEN {} ELSE Resolve(doc.occs, i).targets]]]
 
 TextInfo == [t \in 1..NHTexts |-> InfoOf(t)]
